@@ -440,6 +440,13 @@ def copy_value(ex, v):
 def np_array(ex, args, kwargs, node):
     v = args[0]
     dtype = kwargs.get("dtype", args[1] if len(args) > 1 else None)
+    if type(v).__name__ == "ConstList":
+        k = kind_of(v.value)
+        if isinstance(dtype, DType):
+            k = "real" if dtype.is_float else ("int" if dtype.is_int else k)
+        r = Arr(z3.K(V.INT, to_z3(v.value, k)), [v.n], k, name="constlist")
+        r.ghost.update(owner="fresh", corder=True)
+        return r
     if isinstance(v, (list, tuple)):
         if any(isinstance(x, Arr) for x in v):
             # stack of symbolic arrays along a new leading axis: kept as a Small of Arr leaves
